@@ -22,7 +22,7 @@ Inductive result :=
 | Ok (l : list edge)
 | Cycle                 (* Err(ToposortError::CycleDetected) *)
 | Panic                 (* an `unwrap()` of `None`: codomain object missing from `in_degree` *)
-| OutOfFuel.            (* model artefact; `toposort_fuel_ok` shows it is never returned *)
+| OutOfFuel.            (* model artefact; FactsFuel.toposort_fuel_ok: never returned *)
 
 (* PrefixTree2::get(k): the restriction to first component k (None <-> empty list). *)
 Definition get2 (t : list (N * N)) (k : N) : list N :=
@@ -84,7 +84,7 @@ Fixpoint count_degs (gc : N -> option N) (dom : list (N * N)) (deg : degmap) : o
 
 (* lines 76-93: the loop over one `out_morphisms` restriction.
    `d - 1` is never evaluated at d = 0: entries of the map are >= 1 once the zero-degree
-   objects are removed (Facts.v, invariant `Inv`). *)
+   objects are removed (FactsLoop.v, invariant `Inv`, field i_some). *)
 Fixpoint emit (gc : N -> option N) (obj : N) (ms : list N)
          (deg : degmap) (q : list N) (out : list edge) : option (degmap * list N * list edge) :=
   match ms with
